@@ -178,8 +178,9 @@ Definition chkE13 := chkE_with [1; 2; 3; 4; 5; 6; 11; 12; 13; 14; 21; 22; 23; 24
 Definition chkE09 := chkE_with [2; 4; 5].
 (* C02: the selection rules on the logic-level answer AND that exactly the selected peers reach the wire *)
 Definition chkE02 := chkE_with [5; 6; 21; 22; 23; 24; 25; 26].
-(* C04, concurrent datagrams: every response is the one its own request calls for *)
-Definition chkE04 := chkE_with [1; 2; 4; 5; 12].
+(* C04, concurrent datagrams: every response is the one its own request calls for, and the state they leave is the
+   one the requests imply (13: e.g. a peer registered under bytes that were not its request's) *)
+Definition chkE04 := chkE_with [1; 2; 4; 5; 12; 13].
 Definition chkE08 := chkE_with [6].
 Definition chkE03 := chkE_with [31; 32; 33; 5; 6].
 (* C11: the address stored and handed out is the request's *)
